@@ -391,11 +391,15 @@ def run(ctx):
                 gjobs.append((idx, subset, pattern))
             idx += 1
     ctx.pmap(generic_worker, chunked(gjobs, max(1, len(gjobs) // 128)), seed=ctx.seed)
-    ctx.pmap(large_worker, [[(n, p)] for n in (30, 60) for p in range(4)], seed=ctx.seed)
+    # every (even) facet count of an interval (a blocked facet / vertex table that mishandles some remainder has nowhere to hide below
+    # the bound): quick one energy pattern per count in rotation, thorough all four
+    ljobs = [(n, p) for n in (30, 60) for p in range(4)]
+    ljobs += [(n, p) for n in range(8, 121 if ctx.thorough else 101, 2) for p in (range(4) if ctx.thorough else ((n // 2) % 4,)) if (n, p) not in ljobs]
+    ctx.pmap(large_worker, [[j] for j in ljobs], seed=ctx.seed)
     ctx.rule = ("axis-aligned: all %d assignments of {absent, %s} to the 7 axis pairs of {100}+{111}%s; generic: subsets of a pool of 12 generic "
-                "normals (sizes 3..%d, centrosymmetric completion) x 3 energy patterns; 30- and 60-facet generic sets x 4 energy patterns; energy "
+                "normals (sizes 3..%d, centrosymmetric completion) x 3 energy patterns; 30- and 60-facet generic sets x 4 energy patterns, generic sets of EVERY even facet count 8..%d; energy "
                 "scaling on every 50th case; distinct = facet sets that bound a finite region"
-                % (n_axis, ", ".join(map(str, alphabet)), " + {110} pairs (<= 2 present) on every 3^7 assignment" if ctx.thorough else "", maxk))
+                % (n_axis, ", ".join(map(str, alphabet)), " + {110} pairs (<= 2 present) on every 3^7 assignment" if ctx.thorough else "", maxk, 120 if ctx.thorough else 100))
     ctx.bounds = {"axis_cases": len(jobs), "generic_cases": len(gjobs), "energies": list(alphabet)}
     ctx.assumptions = ["vertex coincidence tolerance 1e-6 x max energy; volume tolerance 1e-7 relative; unbounded facet sets (rank < 3) skipped and counted"]
     ctx.sample({"axis_case": list(jobs[1234 % len(jobs)][1]), "generic_case": list(gjobs[0][1])})
